@@ -18,6 +18,7 @@
 //! List the set of .do files considered to build a target.
 
 use anyhow::{anyhow, Error};
+use std::borrow::Cow;
 use std::env;
 use std::io;
 use std::path::Path;
@@ -41,6 +42,16 @@ pub(crate) fn run() -> Result<(), Error> {
     }
     let cwd = env::current_dir()?;
     let want = redo::abs_path(&cwd, Path::new(&want));
+    // The builder knows a target by the real place of its directory (a
+    // symbolic link on the way does not count); list the candidates of
+    // that place, so that the list is the one a build goes through.
+    let want = match (
+        want.parent().and_then(|d| d.canonicalize().ok()),
+        want.file_name(),
+    ) {
+        (Some(dir), Some(name)) => Cow::Owned(dir.join(name)),
+        _ => want,
+    };
     for df in redo::possible_do_files(want) {
         let do_path = df.do_dir().join(df.do_file());
         let relpath = redo::relpath(&do_path, &cwd)?;
